@@ -39,7 +39,7 @@ def main():
                 rc1, _ = sh("/venv/bin/python %s/demo.py" % os.path.join(SEEDS, n), cwd=wt, env=env, timeout=600)
                 res["demo_fails_with_patch"] = rc1 != 0
                 t0 = time.time()
-                rc, o = sh("./check %s --tier quick" % meta["property"], cwd=HERE, env={"VERIF_REPO": wt}, timeout=3000)
+                rc, o = sh("./check %s --tier quick" % meta["property"], cwd=HERE, env={"VERIF_REPO": wt, "VERIF_OUT": "/tmp/sweep/out_" + n}, timeout=3000)
                 res["check_exit"] = rc
                 res["detected"] = rc == 1
                 res["wall_s"] = round(time.time() - t0)
